@@ -71,6 +71,7 @@ func c09http(c *run.Ctx) {
 		disableRT := i%3 == 2
 		w := v.build(func(cfg *fosite.Config) { cfg.DisableRefreshTokenValidation = disableRT })
 		s := sim.New(w, c, "none")
+		s.CaseID = id
 		steps := 15 + r.Intn(30)
 		for step := 0; step < steps; step++ {
 			randStep(s, r, defaultWeights)
